@@ -354,6 +354,55 @@ pub fn run(ctx: &Ctx) -> Report {
         rep.nontrivial(o::hash_str("invalid-utf8"));
         note(r, &mut rep);
     }
+    // in-process layer (hook H4 runs the same parser/executor as uci_loop): token soups that
+    // never start a search are fed to a session object; a panic would have killed the main
+    // thread of the real engine
+    {
+        use crate::uci::verif::Session;
+        const VOCAB: [&str; 40] = [
+            "uci", "isready", "ucinewgame", "setoption", "name", "value", "position", "startpos", "fen", "moves", "stop", "Hash", "Threads", "Move", "Overhead", "e2e4", "e7e5", "e1g1", "a7a8q", "0000", "1", "-1",
+            "", "xyz", "NAME", "Value", "moves", "name", "value", "rnbqkbnr/pppppppp/8/8/8/8/PPPPPPPP/RNBQKBNR", "w", "b", "KQkq", "-", "0", "1", "e3", "\u{e9}", "go", "quit",
+        ];
+        let cases = ctx.tier.pick(40_000, 600_000) / ctx.shard_count() as u32;
+        let strat = proptest::collection::vec(proptest::collection::vec(0usize..VOCAB.len(), 1..10), 1..6);
+        run_prop(ctx, "c15-inproc", cases, 2000, strat, &mut rep, |lines, rep| {
+            let mut sess = Session::new();
+            let mut sent: Vec<String> = vec![];
+            for toks in lines {
+                let mut words: Vec<&str> = toks.iter().map(|&i| VOCAB[i]).collect();
+                // never start a search in-process, never quit, and FEN arguments must be valid:
+                // a 'fen' keyword is always followed by a complete valid FEN
+                if matches!(words.first(), Some(&"go") | Some(&"quit")) {
+                    words[0] = "stop";
+                }
+                let mut line = String::new();
+                for w in &words {
+                    if *w == "fen" {
+                        line.push_str("fen rnbqkbnr/pppppppp/8/8/8/8/PPPPPPPP/RNBQKBNR w KQkq - 0 1 ");
+                    } else {
+                        line.push_str(w);
+                        line.push(' ');
+                    }
+                }
+                sent.push(line.clone());
+                rep.eval(1);
+                if let Err(pm) = guard(|| {
+                    let _ = sess.line(&line);
+                }) {
+                    return Err(Violation::new(
+                        "survive",
+                        &format!("survive/main-panic-inprocess/{}", panic_site(&pm)),
+                        format!("line '{}' panicked in the command parser/executor: {pm}", line.trim()),
+                        json!({"lines": sent, "eof_after": null, "raw_tail_hex": null}),
+                    ));
+                }
+            }
+            let _ = drain_stdout();
+            rep.class("layer:in-process-token-soup");
+            rep.nontrivial(o::hash_str(&sent.join("|")));
+            Ok(())
+        });
+    }
     let cases = ctx.tier.pick(12_000, 200_000) / ctx.shard_count() as u32;
     run_prop(ctx, "c15", cases, 40, strategy(), &mut rep, |c, rep| {
         let mut lines = vec![];
@@ -389,5 +438,5 @@ pub fn replay(ctx: &Ctx, case: &Value) -> Report {
 }
 
 pub const LEVEL: &str = "exploration";
-pub const RULE: &str = "sessions of 1..25 lines against the real engine binary, each line drawn from a grammar over the UCI vocabulary: the eight commands with well-formed arguments (go budgets that end by themselves), go keywords with the value dropped / duplicated / reordered / replaced by junk (negative, 1e3, 0x10, 40-digit, words, empty, non-ASCII digits), go flags in odd places, setoption with name/value in every order and multiplicity, position with unknown kind / missing 'moves' / empty or illegal or malformed move lists (FEN arguments are always valid FEN, in 6-field and in 4-field form), unknown words, blank lines, tabs, 10 kB lines, non-ASCII text; plus fixed cases: end-of-input at the start, after a line, in the middle of a line, and bytes that are not valid UTF-8. Ending: stop + isready (readyok within 3 s, main thread not panicked) + quit (exit status 0 within 3 s), or end-of-input after a generated line (exit within 3 s). A search-thread panic is C09's subject and ignored here. Non-trivial = session containing at least one malformed line; distinct by (text, ending).";
+pub const RULE: &str = "sessions of 1..25 lines against the real engine binary, each line drawn from a grammar over the UCI vocabulary: the eight commands with well-formed arguments (go budgets that end by themselves), go keywords with the value dropped / duplicated / reordered / replaced by junk (negative, 1e3, 0x10, 40-digit, words, empty, non-ASCII digits), go flags in odd places, setoption with name/value in every order and multiplicity, position with unknown kind / missing 'moves' / empty or illegal or malformed move lists (FEN arguments are always valid FEN, in 6-field and in 4-field form), unknown words, blank lines, tabs, 10 kB lines, non-ASCII text; plus fixed cases: end-of-input at the start, after a line, in the middle of a line, and bytes that are not valid UTF-8. Plus an in-process layer (hook H4): token soups over the vocabulary that never start a search, fed to a session object; any panic is what would have killed the real main thread. Ending of the process sessions: stop + isready (readyok within 3 s, main thread not panicked) + quit (exit status 0 within 3 s), or end-of-input after a generated line (exit within 3 s). A search-thread panic is C09's subject and ignored here. Non-trivial = session containing at least one malformed line; distinct by (text, ending).";
 pub const ASSUMPTIONS: &[&str] = &["FEN arguments are valid (the statement's assumption)", "3 s stands in for 'promptly'; 8 engine processes run concurrently"];
